@@ -385,6 +385,8 @@ func runC03more(c *Ctx) {
 	runC03NoWriteAfterEnd(c)
 	// ---------------------------------------------------------------- C03.14
 	runC03EndNotOverridden(c)
+	// ---------------------------------------------------------------- C03.15
+	runC03EndAlwaysEmitted(c)
 	// ---------------------------------------------------------------- C03.12
 	c.Rule("C03.12", "an enveloped unit is decompressed exactly when its own envelope's compressed flag says so", 2)
 	checkUnitFlagDecompress(c, "C03.12")
@@ -901,4 +903,99 @@ func runC03EndNotOverridden(c *Ctx) {
 	c.Check(replaced && nAdd > 0, "C03.14", FuncName(merge), "end-trailers-replace", merge.Pos(),
 		"the end's trailers are stored after clearing what was under the same key",
 		"the end's trailers are only added to the header map: a status the handler stored before under the same trailer key stays first and wins")
+}
+
+// runC03EndAlwaysEmitted: C03.15 (defect D32).  encodeEnd is THE terminal disposition of a client
+// protocol.  On every path it either writes to the writer it was given (body / end-of-stream
+// frame) or returns trailers to be merged; a path that does neither ends the response with
+// nothing - the client cannot tell a clean end from a lost one.
+func runC03EndAlwaysEmitted(c *Ctx) {
+	p := c.P
+	c.Rule("C03.15", "every path of a client protocol's end encoder emits the end (writes it, or returns trailers)", 5)
+	cph := p.Iface("clientProtocolHandler")
+	if cph == nil {
+		fatalf("anchor=clientProtocolHandler not found")
+	}
+	for _, t := range p.Implementers(cph) {
+		fn := p.MethodOf(t, "encodeEnd")
+		if fn == nil {
+			fatalf("anchor=%s.encodeEnd not found", typeName(t))
+		}
+		// a handler that delegates to another one's encodeEnd is judged there
+		var writer *ssa.Parameter
+		for _, prm := range fn.Params {
+			if isNamed(prm.Type(), "io", "Writer") {
+				writer = prm
+			}
+		}
+		if writer == nil {
+			c.Unknown("C03.15", typeName(t), "end-emitted", fn.Pos(), "end encoder without an io.Writer parameter")
+			continue
+		}
+		usesWriter := func(in ssa.Instruction) bool {
+			ci, ok := in.(ssa.CallInstruction)
+			if !ok {
+				return false
+			}
+			cc := ci.Common()
+			if cc.IsInvoke() && strip(cc.Value) == ssa.Value(writer) {
+				return true
+			}
+			for _, a := range cc.Args {
+				if strip(a) == ssa.Value(writer) {
+					return true
+				}
+				// http.ResponseWriter obtained from the writer by assertion
+				for _, l := range Origins(a) {
+					if l.Kind == "param" && l.V == ssa.Value(writer) {
+						return true
+					}
+				}
+			}
+			if cc.IsInvoke() {
+				for _, l := range Origins(cc.Value) {
+					if l.Kind == "param" && l.V == ssa.Value(writer) {
+						return true
+					}
+				}
+			}
+			return false
+		}
+		silentReturn := func(in ssa.Instruction) bool {
+			ret, ok := in.(*ssa.Return)
+			if !ok || ret.Block() == fn.Recover {
+				return false
+			}
+			rv := ReturnValues(ret)
+			return len(rv) == 1 && IsNilConst(rv[0])
+		}
+		// Unary client protocols carry their end in the response head (nothing to emit later);
+		// the rule is about protocols whose end travels after the messages.
+		eph := p.Iface("envelopedProtocolHandler")
+		if eph == nil || !(types.Implements(t, eph) || types.Implements(types.NewPointer(t), eph)) {
+			c.Trivial("C03.15", typeName(t), "end-emitted", fn.Pos(), "un-enveloped client protocol: the end is part of the response head")
+			continue
+		}
+		// silent returns are legitimate where the end was already recorded in the headers, or
+		// where the encoded end cannot be represented in an envelope at all (> MaxUint32)
+		excused := func(from *ssa.BasicBlock, succ int) bool {
+			iff, ok := from.Instrs[len(from.Instrs)-1].(*ssa.If)
+			if !ok {
+				return true
+			}
+			if prm, ok := iff.Cond.(*ssa.Parameter); ok && isBoolType(prm.Type()) && succ == 0 {
+				return false // the 'was in headers' edge
+			}
+			if b, ok := iff.Cond.(*ssa.BinOp); ok && (b.Op == token.GTR || b.Op == token.GEQ) && succ == 0 {
+				if k, isK := ConstInt(b.Y); isK && k >= 1<<32-1 {
+					return false
+				}
+			}
+			return true
+		}
+		found, path := PathQuery{Target: silentReturn, Avoid: usesWriter, EdgeOK: excused}.Search(fn, nil)
+		c.Check(!found, "C03.15", typeName(t), "end-emitted", fn.Pos(),
+			"every path (on which the end is not already in the headers) writes the end to the writer or returns trailers",
+			"the end encoder has a path that writes nothing and returns no trailers ("+witnessString(p, path)+"): the response stops without a terminal disposition (e.g. when the encoded end exceeds a limit)")
+	}
 }
